@@ -55,6 +55,8 @@ pub enum Op {
     SetLog { level: String },
     /// drop rewriter r and construct it again (same configuration, same PRNG seed)
     Renew { r: usize },
+    /// a call during which the host's logger (debug level) re-enters the rewriter at its k-th record
+    LogReenter { r: usize, f: usize, s: usize, at: u32 },
     /// a call on rewriter r whose file reader, at its first open, re-enters: a call on ANOTHER rewriter
     /// r2 runs to completion inside it (a require hook firing while the host loads the map file)
     Nested { r: usize, f: usize, s: usize, r2: usize, f2: usize, s2: usize },
@@ -195,8 +197,13 @@ fn plan16(seed: u64, run: u64, tier: Tier) -> Plan16 {
         o.comments = rng.chance(1, 2);
         o.crlf = rng.chance(1, 8);
         o.unicode = rng.chance(1, 4);
-        let kind = rng.weighted(&[8, 3, 2, 2, 3, 1, 1, 2, 1, 2]);
+        // (a file with tens of thousands of literals is expensive: one run in eight may have one)
+        let kind = rng.weighted(&[8, 3, 2, 2, 3, 1, 1, 2, 1, 2, if run % 8 == 5 && si == 0 { 12 } else { 0 }]);
         let (kind_s, mut text) = match kind {
+            10 => {
+                let n = rng.range(26_000, 34_000);
+                ("huge-literals", jsgen::gen_many_literals(&mut rng, n))
+            }
             9 => {
                 let n = *rng.pick(&[64usize, 65, 100, 128, 255, 256, 257, 511, 512, 513, 600, 1024]);
                 ("repeat", jsgen::gen_repeat(&mut rng, n))
@@ -309,8 +316,9 @@ fn plan16(seed: u64, run: u64, tier: Tier) -> Plan16 {
             (Some((lr, lf, ls)), 3) => (lr, lf, ls),        // exact repeat
             _ => (r, f, s),
         };
-        let k = rng.weighted(&[12, 3, 3, 2, 2, 1, 2, 1, if n_rw > 1 { 1 } else { 0 }]);
+        let k = rng.weighted(&[12, 3, 3, 2, 2, 1, 2, 1, if n_rw > 1 { 1 } else { 0 }, 1]);
         let op = match k {
+            9 => Op::LogReenter { r, f, s, at: rng.range(1, 6) as u32 },
             8 => {
                 // the outer source should make the reader open something
                 let ext: Vec<usize> = (0..sources.len()).filter(|i| sources[*i].kind.contains("external") || sources[*i].kind.contains("missing")).collect();
@@ -383,6 +391,13 @@ fn benign_plan(chunk: usize, eintr: usize, lat: u64) -> FaultPlan {
     p
 }
 
+thread_local! {
+    /// armed by `LogReenter`: at the k-th record the sink handles, the host's logger re-enters the
+    /// rewriter (a logger that requires a module - which the require hook rewrites - while it formats)
+    static LOG_REENTER: std::cell::RefCell<Option<(u32, crate::fsim::FsSpec)>> = std::cell::RefCell::new(None);
+}
+pub static LOG_REENTRIES: std::sync::atomic::AtomicU64 = std::sync::atomic::AtomicU64::new(0);
+
 struct LogSink;
 static LOG_RECORDS: std::sync::atomic::AtomicU64 = std::sync::atomic::AtomicU64::new(0);
 static LOG_BYTES: std::sync::atomic::AtomicU64 = std::sync::atomic::AtomicU64::new(0);
@@ -396,6 +411,21 @@ impl log::Log for LogSink {
             let s = format!("{}", r.args());
             LOG_RECORDS.fetch_add(1, std::sync::atomic::Ordering::Relaxed);
             LOG_BYTES.fetch_add(s.len() as u64, std::sync::atomic::Ordering::Relaxed);
+            let fire = LOG_REENTER.with(|c| {
+                let mut c = c.borrow_mut();
+                match c.as_mut() {
+                    Some((k, _)) if *k <= 1 => c.take().map(|x| x.1),
+                    Some((k, _)) => {
+                        *k -= 1;
+                        None
+                    }
+                    None => None,
+                }
+            });
+            if let Some(fs) = fire {
+                LOG_REENTRIES.fetch_add(1, std::sync::atomic::Ordering::Relaxed);
+                exec::nested_rewrite(&fs);
+            }
         }
     }
     fn flush(&self) {}
@@ -670,6 +700,26 @@ impl Engine for C16 {
                     hist.push((5, *r, "-"));
                     stat(&mut rep, "op:renew", 1);
                 }
+                Op::LogReenter { r, f, s, at } => {
+                    if let Some(c) = &configs[*r] {
+                        let before = log::max_level();
+                        log::set_max_level(log::LevelFilter::Debug);
+                        LOG_REENTER.with(|c| *c.borrow_mut() = Some((*at, plan.fs.clone())));
+                        let n0 = LOG_REENTRIES.load(std::sync::atomic::Ordering::Relaxed);
+                        let res = exec::call(c, &plan.sources[*s].text, &plan.files[*f], &plan.fs, &FaultPlan::clean());
+                        LOG_REENTER.with(|c| *c.borrow_mut() = None);
+                        log::set_max_level(before);
+                        let fired = LOG_REENTRIES.load(std::sync::atomic::Ordering::Relaxed) - n0;
+                        stat(&mut rep, "fault:reentrant-rewrite-from-logger", fired);
+                        check("logger-reentry", *r, *f, *s, &res.outcome, &mut model, &mut viol, seq);
+                        let cls = res.outcome.class();
+                        log.push(format!("#{seq} LogReenter r={r} f={f} s={s} at={at} fired={fired} -> {cls} {:016x}", res.outcome.digest()));
+                        prev = Some((*r, *f, *s, cls));
+                        triples.insert((*r, *f, *s), ());
+                        hist.push((9, *r, cls));
+                        stat(&mut rep, "op:logreenter", 1);
+                    }
+                }
                 Op::Nested { r, f, s, r2, f2, s2 } => {
                     if let (Some(c), Some(c2)) = (&configs[*r], &configs[*r2]) {
                         let inner_out: std::cell::RefCell<Option<Outcome>> = std::cell::RefCell::new(None);
@@ -934,7 +984,7 @@ impl Engine for C16 {
     }
 
     fn rule(&self) -> String {
-        "a case is one seeded call history (10-60 operations: Call (benign faults incl. simulated latency)/Repeat/Fresh/Hop/FaultCall/SetLog/Renew/Idle (simulated time passes)/Nested (the reader re-enters the rewriter on another instance) over <=4 rewriters, <=6 files, <=8 generated sources, benign reader faults); distinct = hash of the abstract history (operation kind, rewriter index, outcome class per step); non-trivial = at least two operations; cells = outcome-class transitions x same/other rewriter x same/other file".into()
+        "a case is one seeded call history (10-60 operations: Call (benign faults incl. simulated latency)/Repeat/Fresh/Hop/FaultCall/SetLog/Renew/Idle (simulated time passes)/Nested (the reader re-enters the rewriter on another instance)/LogReenter (the logger does, at its k-th record) over <=4 rewriters, <=6 files, <=8 generated sources, benign reader faults); distinct = hash of the abstract history (operation kind, rewriter index, outcome class per step); non-trivial = at least two operations; cells = outcome-class transitions x same/other rewriter x same/other file".into()
     }
 
     fn components(&self) -> Value {
